@@ -6,6 +6,7 @@ import GFS.Spec.RangeSpec
 import GFS.Spec.NameSpec
 import GFS.Spec.ChunkSpec
 import GFS.Model.HostBucket
+import GFS.Generated.Facts
 /-
   gfsdriver: one request per input line, one answer per output line.
   Answer format:  <model observation> TAB <spec observation or "-">
@@ -115,6 +116,11 @@ def handle (toks : List String) : String :=
       else p
     let (sb, sk) := routeSplit specPath
     s!"path={toHex rw} bucket={toHex b} key={toHex k}\tbucket={toHex sb} key={toHex sk}"
+  | ["status", code] =>
+    -- the HTTP status `ErrorCode.Status()` assigns to a code, from the table re-read from error.go
+    (match GFS.Generated.statusTable.find? (fun p => p.1 == code) with
+     | some p => toString p.2
+     | none => toString GFS.Generated.statusDefault) ++ "\t-"
   | ["chunkput", declared, tail, inp] =>
     -- handler level: what a backend that enforces the declared decoded length stores
     let input := fromHex inp
